@@ -32,7 +32,8 @@ def check_C06(run):
     thorough = run.tier == "thorough"
     _, c06 = idl_gen(run, 1, thorough)
     run.extra["edit_space"] = len(c06)
-    cases = c06 if thorough else run.rng.sample(c06, min(len(c06), 6000))
+    na = [c for c in c06 if 'U1"' in c or 'U4"' in c]          # edits that bring in a name with a non-ASCII letter
+    cases = c06 if thorough else run.rng.sample(c06, min(len(c06), 6000)) + run.rng.sample(na, min(len(na), 600))
     table_replay(run, cases, ["idl", "-mode", "c06"], "IdlTrace", TR_CFG, "C06 single-token edits of valid descriptions", shards=16,
                  nontrivial=lambda c: '"accepted":true' in c)
     run.write_evidence("model_checking",
